@@ -91,7 +91,7 @@ def cases(bins, want_mpi):
                         continue
                     out.append(dict(prog="mcb-dimacs-mpi", mpi=P,
                                     cmd=["mpiexec", "--allow-run-as-root", "--oversubscribe", "-n", str(P), bins["demo_mcb-dimacs-mpi"]] + aopts + [path],
-                                    file=name, opt=opt, bad=bad, k=None, par=True, cores=0, to=40))
+                                    file=name, opt=opt, bad=bad, k=None, par=True, cores=0, to=90))
     return out
 
 
@@ -158,7 +158,7 @@ def run_all(want_mpi=True, only_cores=False):
         results.extend(ex.map(one, mpi))
     res = dict(driver="demos", evaluations=len(results), distinct_nontrivial=0, samples=[], violations=[], status="ok",
                counts={}, exhaustive=True, functions={}, assumptions=[], entry_points=[],
-               rule="enumerated DIMACS files (5 valid with known optimum incl. one without final newline and one forest; 5 invalid: self-loop, parallel edge, zero, negative, several) x every algorithm/parallel/verbose/cores combination of mcb-dimacs, approx-mcb-dimacs (k=2,3), collection-stats-dimacs, and mcb-dimacs-mpi under mpiexec -n 1..3(4) with a 40 s watchdog; distinct = distinct command lines",
+               rule="enumerated DIMACS files (5 valid with known optimum incl. one without final newline and one forest; 5 invalid: self-loop, parallel edge, zero, negative, several) x every algorithm/parallel/verbose/cores combination of mcb-dimacs, approx-mcb-dimacs (k=2,3), collection-stats-dimacs, and mcb-dimacs-mpi under mpiexec -n 1..3(4) with a 90 s watchdog; distinct = distinct command lines",
                bounds="files=10")
     seen = set()
     cores_checked = 0
